@@ -3,12 +3,13 @@
 # restores /repo no matter what. usage: tools/try_patch.sh <patch.diff> <ID> [<ID> ...]
 # Prints one line per check: "<ID> caught|MISSED|inconclusive <seconds>s <key>".
 set -u
+REPO="${REPO:-/repo}"
 ROOT="$(cd "$(dirname "${BASH_SOURCE[0]}")/.." && pwd)"
 PATCH="$(realpath "$1")"; shift
-if ! git -C /repo diff --quiet; then echo "/repo has uncommitted changes; refusing"; exit 3; fi
-if ! git -C /repo apply --check "$PATCH" 2>/dev/null; then echo "patch does not apply to /repo"; exit 3; fi
-git -C /repo apply "$PATCH"
-trap 'git -C /repo checkout -- . ; git -C /repo clean -fdq -- src tests 2>/dev/null' EXIT
+if ! git -C "$REPO" diff --quiet; then echo "/repo has uncommitted changes; refusing"; exit 3; fi
+if ! git -C "$REPO" apply --check "$PATCH" 2>/dev/null; then echo "patch does not apply to /repo"; exit 3; fi
+git -C "$REPO" apply "$PATCH"
+trap 'git -C "$REPO" checkout -- . ; git -C "$REPO" clean -fdq -- src tests 2>/dev/null' EXIT
 cd "$ROOT"
 TIER="${TIER:-quick}"
 for id in "$@"; do
